@@ -74,6 +74,9 @@ def build(r):
         return type(r[1], (), {"__repr__": lambda self: "<%s instance>" % type(self).__name__})()
     if k == "exc":
         return {"ValueError": ValueError, "KeyError": KeyError, "Exception": Exception}[r[1]](r[2])
+    if k == "excobj":
+        args = [build(x) for x in r[2]]
+        return {"ValueError": ValueError, "KeyError": KeyError, "Exception": Exception}[r[1]](*args)
     if k == "exccls":
         return {"ValueError": ValueError, "KeyError": KeyError, "Exception": Exception}[r[1]]
     if k == "complex":
@@ -95,7 +98,7 @@ ADV_STRS = ["", " ", "0", "1", "-1", "5.0", "1e3", "0x10", "2147483648", "nan", 
 
 def gen_adversarial(c, schema, depth=0):
     k = c.weighted([(10, "int"), (10, "float"), (10, "str"), (4, "bool"), (3, "none"), (3, "bytes"), (4, "list"), (3, "tuple"),
-                    (2, "set"), (2, "gen"), (4, "dict"), (3, "decimal"), (2, "fraction"), (3, "obj"), (2, "named_obj"), (3, "exc"), (2, "exccls"), (1, "complex"), (3, "pyenum")])
+                    (2, "set"), (2, "gen"), (4, "dict"), (3, "decimal"), (2, "fraction"), (3, "obj"), (2, "named_obj"), (3, "exc"), (2, "excobj"), (2, "exccls"), (1, "complex"), (3, "pyenum")])
     if k == "int":
         return ["int", c.choice(ADV_INTS)]
     if k == "float":
@@ -132,6 +135,10 @@ def gen_adversarial(c, schema, depth=0):
         return ["named_obj", c.choice(names)]
     if k == "exc":
         return ["exc", c.choice(["ValueError", "KeyError", "Exception"]), c.choice(["boom", "", "é"])]
+    if k == "excobj":
+        # exceptions carrying non-string (even non-JSON) arguments, or none, or several
+        nargs = c.weighted([(5, 1), (2, 0), (2, 2)])
+        return ["excobj", c.choice(["ValueError", "KeyError", "Exception"]), [c.choice([["bytes", "00ff"], ["set", [["int", 1]]], ["obj", []], ["int", 7], ["none"], ["float", "nan"], ["list", []], ["dict", []]]) for _ in range(nargs)]]
     if k == "exccls":
         return ["exccls", c.choice(["ValueError", "Exception"])]
     if k == "pyenum":
@@ -467,7 +474,7 @@ def case(c, stats):
         ex = Executor(schema, spec["doc"], None)
         for key, r in spec["returns"].items():
             kinds.add("ret:" + r[0])
-        ill = sum(1 for r in spec["returns"].values() if r[0] in ("bytes", "tuple", "set", "gen", "decimal", "fraction", "exc", "exccls", "complex", "named_obj", "pyenum") or (r[0] == "float" and r[1] in ("nan", "inf", "-inf")))
+        ill = sum(1 for r in spec["returns"].values() if r[0] in ("bytes", "tuple", "set", "gen", "decimal", "fraction", "exc", "excobj", "exccls", "complex", "named_obj", "pyenum") or (r[0] == "float" and r[1] in ("nan", "inf", "-inf")))
         nontrivial = ill >= 1 and n_good >= 1
         stats.case({"schema": schema, "doc": spec["doc"], "returns": spec["returns"], "v": spec["variables"]}, nontrivial, sorted(kinds),
                    {"query": print_document(spec["doc"]).text, "returns": spec["returns"]})
